@@ -56,11 +56,22 @@ pub enum Verdict {
 pub trait Prop: Sync {
     fn id(&self) -> &'static str;
     fn profiles(&self, tier: Tier) -> Vec<(Profile, usize)>;
+    /// Definitions built by the property itself (instead of / in addition to the profiles).
+    fn custom_specs(&self, _tier: Tier, _r: &mut TestRunner) -> Vec<(&'static str, Spec)> {
+        vec![]
+    }
     fn adjust_spec(&self, spec: Spec, _r: &mut TestRunner) -> Spec {
         spec
     }
     fn cases(&self, ctx: &SpecCtx, comp: &mut Compiled, r: &mut TestRunner, tier: Tier) -> Vec<Case>;
-    fn judge(&self, ctx: &SpecCtx, case: &Case, model: &ModelOut, got: &Outcome) -> Verdict;
+    /// The executions derived from one generated case (e.g. the same input through every
+    /// constructor). The first variant is the case itself unless overridden.
+    fn variants(&self, base: &Case) -> Vec<Case> {
+        vec![base.clone()]
+    }
+    /// Judges one generated case from the outcomes of its variants (`models[i]` is the reference
+    /// run of `vars[i]`).
+    fn judge(&self, ctx: &SpecCtx, vars: &[Case], models: &[ModelOut], gots: &[Outcome]) -> Verdict;
     fn rule(&self) -> String;
     /// A well-formed definition the macro refused / rustc rejected: a violation of this property?
     fn unusable_is_violation(&self, _spec: &Spec) -> bool {
@@ -68,6 +79,9 @@ pub trait Prop: Sync {
     }
     fn min_nontrivial(&self, _tier: Tier) -> usize {
         2
+    }
+    fn per_case_timeout_ms(&self) -> u64 {
+        20000
     }
 }
 
@@ -515,6 +529,10 @@ pub fn replay_json(prop: &str, ctx: &SpecCtx, case: &Case, reason: &str, exp: &T
 /// Generates the specs of all profiles; returns (profile name, spec) in a fixed order.
 pub fn generate_specs(prop: &dyn Prop, tier: Tier) -> Vec<(&'static str, Spec)> {
     let mut out = vec![];
+    {
+        let mut r = runner(seed(), &format!("{}-custom-specs", prop.id()));
+        out.extend(prop.custom_specs(tier, &mut r));
+    }
     for (pi, (profile, n)) in prop.profiles(tier).into_iter().enumerate() {
         let mut r = runner(seed(), &format!("{}-specs-{}-{}", prop.id(), pi, profile.name));
         let strat = oracle::gen::spec_strategy(&profile);
@@ -597,7 +615,7 @@ pub fn run(prop: &dyn Prop, tier: Tier) -> i32 {
             let total = &total;
             let prep = &prep;
             s.spawn(move || {
-                let mut server = Server::new(&bin.path, 20000);
+                let mut server = Server::new(&bin.path, prop.per_case_timeout_ms());
                 let mut st = Stats::default();
                 for (lexer_idx, &si) in bin.specs.iter().enumerate() {
                     let (pname, spec) = &prep.specs[si];
@@ -609,25 +627,37 @@ pub fn run(prop: &dyn Prop, tier: Tier) -> i32 {
                     let cases = prop.cases(&ctx, &mut comp, &mut r, tier);
                     st.specs_run += 1;
                     let mut violated = false;
-                    for chunk in cases.chunks(512) {
-                        let refs: Vec<&Case> = chunk.iter().collect();
+                    let eval_group = |server: &mut Server, comp: &mut Compiled, base: &Case| -> (Vec<Case>, Vec<ModelOut>, Vec<Outcome>, Verdict) {
+                        let vars = prop.variants(base);
+                        let refs: Vec<&Case> = vars.iter().collect();
                         let outs = server.run(lexer_idx as u32, &refs);
-                        for (case, got) in chunk.iter().zip(outs.iter()) {
-                            let model = run_model(&mut comp, case);
-                            st.evaluations += 1;
-                            if matches!(got, Outcome::Hang) {
+                        let models: Vec<ModelOut> = vars.iter().map(|c| run_model(comp, c)).collect();
+                        let v = prop.judge(&ctx, &vars, &models, &outs);
+                        (vars, models, outs, v)
+                    };
+                    for chunk in cases.chunks(256) {
+                        let groups: Vec<Vec<Case>> = chunk.iter().map(|b| prop.variants(b)).collect();
+                        let refs: Vec<&Case> = groups.iter().flatten().collect();
+                        let outs = server.run(lexer_idx as u32, &refs);
+                        let mut off = 0;
+                        for (base, vars) in chunk.iter().zip(groups.iter()) {
+                            let gots = &outs[off..off + vars.len()];
+                            off += vars.len();
+                            let models: Vec<ModelOut> = vars.iter().map(|c| run_model(&mut comp, c)).collect();
+                            st.evaluations += vars.len() as u64;
+                            if gots.iter().any(|g| matches!(g, Outcome::Hang)) {
                                 st.hangs += 1;
                             }
-                            match prop.judge(&ctx, case, &model, got) {
+                            match prop.judge(&ctx, vars, &models, gots) {
                                 Verdict::Ok { nontrivial } => {
-                                    add_facts(&mut st.facts, &model.facts);
+                                    add_facts(&mut st.facts, &models[0].facts);
                                     if nontrivial {
-                                        let h = case_hash(si, case);
+                                        let h = case_hash(si, base);
                                         if st.nontrivial.insert(h) && st.samples.len() < 3 {
                                             st.samples.push(json!({
                                                 "lexer": ctx.spec.print_macro("Lexer"),
-                                                "case": case_to_json(case),
-                                                "trace": fmt_run(&model.trace.a),
+                                                "case": case_to_json(base),
+                                                "trace": pipe::trunc(&fmt_run(&models[0].trace.a), 1500),
                                             }));
                                         }
                                     }
@@ -635,24 +665,32 @@ pub fn run(prop: &dyn Prop, tier: Tier) -> i32 {
                                 Verdict::Skip => st.skipped += 1,
                                 Verdict::Bad(reason) => {
                                     // shrink input/script against the same lexer
-                                    let shrunk = shrink_case(case.clone(), |c| {
-                                        let o = server.run(lexer_idx as u32, &[c]);
-                                        let m = run_model(&mut comp, c);
-                                        matches!(prop.judge(&ctx, c, &m, &o[0]), Verdict::Bad(_))
+                                    let shrunk = shrink_case(base.clone(), |c| {
+                                        matches!(eval_group(&mut server, &mut comp, c).3, Verdict::Bad(_))
                                     });
-                                    let o = server.run(lexer_idx as u32, &[&shrunk]);
-                                    let m = run_model(&mut comp, &shrunk);
-                                    let reason2 = match prop.judge(&ctx, &shrunk, &m, &o[0]) {
+                                    let (vars2, models2, outs2, v2) = eval_group(&mut server, &mut comp, &shrunk);
+                                    let reason2 = match v2 {
                                         Verdict::Bad(r) => r,
                                         _ => reason.clone(),
                                     };
+                                    let mut rp = replay_json(prop.id(), &ctx, &shrunk, &reason2, &models2[0].trace, &outs2[0]);
+                                    if vars2.len() > 1 {
+                                        rp["variants"] = json!(vars2
+                                            .iter()
+                                            .zip(outs2.iter())
+                                            .map(|(c, o)| json!({"case": case_to_json(c), "got": match o {
+                                                Outcome::Trace(t) => json!({"a": fmt_run(&t.a), "b": t.b.as_ref().map(fmt_run), "panic": t.panic}),
+                                                other => json!(format!("{:?}", other)),
+                                            }}))
+                                            .collect::<Vec<_>>());
+                                    }
                                     st.violations.push(Violation {
                                         spec_idx: si,
                                         summary: format!(
                                             "{} | input {:?} script {:?}",
-                                            reason2, shrunk.input, shrunk.script
+                                            pipe::trunc(&reason2, 400), pipe::trunc(&shrunk.input, 80), shrunk.script
                                         ),
-                                        replay: replay_json(prop.id(), &ctx, &shrunk, &reason2, &m.trace, &o[0]),
+                                        replay: rp,
                                     });
                                     violated = true;
                                     break;
@@ -783,15 +821,19 @@ pub fn replay(prop: &dyn Prop, v: &Value) -> i32 {
     let case = case_from_json(&v["case"]);
     let (ctx, mut comp) = make_ctx(0, "replay", prep.specs[0].1.clone()).unwrap();
     let mut server = Server::new(&prep.build.bins[0].path, 20000);
-    let o = server.run(0, &[&case]);
-    let m = run_model(&mut comp, &case);
-    println!("expected: {}", fmt_run(&m.trace.a));
-    if let Outcome::Trace(t) = &o[0] {
-        println!("got:      {}", fmt_run(&t.a));
-    } else {
-        println!("got:      {:?}", o[0]);
+    let vars = prop.variants(&case);
+    let refs: Vec<&Case> = vars.iter().collect();
+    let outs = server.run(0, &refs);
+    let models: Vec<ModelOut> = vars.iter().map(|c| run_model(&mut comp, c)).collect();
+    println!("expected: {}", pipe::trunc(&fmt_run(&models[0].trace.a), 3000));
+    for o in &outs {
+        if let Outcome::Trace(t) = o {
+            println!("got:      {}", pipe::trunc(&fmt_run(&t.a), 3000));
+        } else {
+            println!("got:      {:?}", o);
+        }
     }
-    match prop.judge(&ctx, &case, &m, &o[0]) {
+    match prop.judge(&ctx, &vars, &models, &outs) {
         Verdict::Bad(r) => {
             println!("VIOLATION property={} replay=<given file>", prop.id());
             println!("  {}", r);
